@@ -22,7 +22,7 @@ IMPORTANT: the installed `bubus` in `/venv` is an editable install pointing at a
 
 Run the existing test-suite with:
 `cd {wt} && PYTHONPATH={wt} timeout 1200 /venv/bin/python -m pytest -q -p no:cacheprovider --timeout=900 -n 4 -o addopts=""`
-(138 tests; they all pass on the unmodified worktree; takes about 1-2 minutes).
+(138 tests; they all pass on the unmodified worktree; takes about 1-2 minutes). Note: a few wall-clock / lock-file tests in `tests/test_semaphores.py` can fail spuriously when the machine is loaded or when someone else runs the same suite at the same time (they share `/tmp/browser_use_semaphores`); if only those fail, re-run `tests/test_semaphores.py` on its own a couple of times, and check whether the same failure also happens without your change.
 
 ## What I need from you
 
@@ -31,7 +31,7 @@ Run the existing test-suite with:
    - The change must NOT be exposed by ordinary, simple use: it should need something specific to manifest — a particular interleaving of tasks, a fault/timeout/cancellation at a particular point, a multi-step sequence of operations, an unusual input or configuration, or two cooperating sites that each look fine alone.
    - It must still compile/import and ALL 138 existing tests must still pass with the change (run them!).
    - Do not modify the tests, do not add hooks/env switches; do not break the property in a way that also breaks everything else.
-3. Write a demonstration: a standalone script `{wt}/_seeded/demo.py` (plain asyncio, may use real short sleeps; run as `cd {wt} && PYTHONPATH={wt} /venv/bin/python _seeded/demo.py`) that exits with status 1 (and prints what went wrong) WITH your change and exits 0 WITHOUT it. Verify both: use `git stash` / `git stash pop` (or `git diff > /tmp/x.patch; git checkout -- bubus; ...`) to run it on the unmodified code as well.
+3. Write a demonstration: a standalone script `{wt}/_seeded/demo.py` (plain asyncio, may use real short sleeps; run as `cd {wt} && PYTHONPATH={wt} /venv/bin/python _seeded/demo.py`) that exits with status 1 (and prints what went wrong) WITH your change and exits 0 WITHOUT it. Verify both. To run it on the unmodified code use `git diff -- bubus > _seeded/patch.diff; git checkout -- bubus; <run demo>; git apply _seeded/patch.diff` — do NOT use `git stash` (the stash is shared with other worktrees of this repository that other people are using right now).
 4. Save the change as a patch: `cd {wt} && git diff -- bubus > _seeded/patch.diff` (the worktree must still contain the change when you finish).
 5. Write `{wt}/_seeded/meta.json` with keys: "property" ("{pid}"), "summary" (one sentence: what was changed), "needs" (what specific circumstances are needed for the defect to manifest), "files" (list of changed files).
 
